@@ -26,6 +26,19 @@ def q(n, d):
     return "%d/%d" % (n, d) if d != 1 else "%d" % n
 
 
+# Boundary mode (about 25 % of the cases): force one or two of the case-split boundaries of the proofs -
+# horizon 1 (no descent: every child is a leaf at the horizon), a single action, a single observation,
+# a single state, one outcome per (s,a), a one-particle belief, a single iteration, rPOMCP's k in {0,1,2}
+# (N == k / N > k on the first visits), and an advance with an observation no simulation can have
+# produced (o = O: never simulated -> the tree is reset from the uniform belief).
+_BD = {}
+
+
+def bd_pick(rng):
+    keys = ["h1", "A1", "O1", "S1", "K1", "b1", "it1", "k01", "unseen", "h2"]
+    return {k: True for k in rng.sample(keys, rng.choice([1, 1, 2, 3]))}
+
+
 def gen_model(rng, iso0=False):
     """iso0: state 0 is never produced by the model (S >= 2) - it is impossible under every history
     whose initial belief gives it no mass."""
@@ -33,6 +46,10 @@ def gen_model(rng, iso0=False):
     A = rng.choice([1, 2, 2, 3])
     O = rng.choice([1, 2, 2, 3])
     K = rng.choice([1, 2, 2, 3])
+    if _BD.get("S1") and not iso0: S = 1
+    if _BD.get("A1"): A = 1
+    if _BD.get("O1"): O = 1
+    if _BD.get("K1"): K = 1
     disc = rng.choice(["1/2", "1/2", "1", "3/4", "1/4"])
     pterm = rng.choice([0.0, 0.2, 0.2, 0.4])
     term = [1 if rng.random() < pterm else 0 for _ in range(S)]
@@ -50,7 +67,22 @@ def gen_model(rng, iso0=False):
 
 
 def gen_horizon(rng):
+    if _BD.get("h1"): return 1
+    if _BD.get("h2"): return 2
     return rng.choice([1, 1, 2, 2, 3, 3, 4, 5, 6])
+
+
+def bd_iters(rng, iters):
+    return 1 if _BD.get("it1") else iters
+
+
+def bd_bsize(rng, b):
+    return 1 if _BD.get("b1") else b
+
+
+def bd_obs(rng, O):
+    """observation used to advance: in boundary mode 'unseen' one that no simulation can have produced"""
+    return O if _BD.get("unseen") and rng.random() < 0.7 else rng.randrange(O)
 
 
 def next_h(rng, h):
@@ -68,9 +100,9 @@ def gen_mctsv(rng):
     acnt = [rng.randint(1, A) for _ in range(S)]
     if rng.random() < 0.5:      # action sets that shrink along the state order
         acnt = sorted(acnt, reverse=True)
-    iters = rng.choice([1, 2, 3, 5, 8, 12, 20, 30])
+    iters = bd_iters(rng, rng.choice([1, 2, 3, 5, 8, 12, 20, 30]))
     expl = rng.choice(["0", "1/2", "1", "5", "100"])
-    h = rng.choice([2, 3, 3, 4, 5, 6])
+    h = 2 if _BD.get("h2") else rng.choice([2, 3, 3, 4, 5, 6])
     cur = rng.randrange(S)
     ops = ["F %d %d" % (cur, h)]
     for _ in range(rng.choice([0, 1, 1, 2])):
@@ -84,10 +116,10 @@ def gen_rpomcp(rng):
     iso0 = rng.random() < 0.5
     head, S, A, O = gen_model(rng, iso0)
     entropy = rng.choice([0, 0, 1])
-    bsize = rng.choice([1, 2, 3, 5, 8])
-    iters = rng.choice([1, 3, 8, 15, 25, 40, 60])
+    bsize = bd_bsize(rng, rng.choice([1, 2, 3, 5, 8]))
+    iters = bd_iters(rng, rng.choice([1, 3, 8, 15, 25, 40, 60]))
     expl = rng.choice(["0", "1/2", "1", "5", "100"])
-    k = rng.choice([1, 2, 5, 500])
+    k = rng.choice([0, 1, 2]) if _BD.get("k01") else rng.choice([1, 2, 3, 5, 500])
 
     def belief():
         w = [rng.choice([0, 1, 1, 2, 3]) for _ in range(S)]
@@ -104,11 +136,13 @@ def gen_rpomcp(rng):
         if rng.random() < 0.1:
             ops.append("F %s %d" % (belief(), h))
         else:
-            ops.append("A %d %d %d" % (rng.randrange(A), rng.randrange(O), h))
+            ops.append("A %d %d %d" % (rng.randrange(A), bd_obs(rng, O), h))
     return "rpomcp %d %s %d %d %s %d %d %s" % (entropy, head, bsize, iters, expl, k, len(ops), " ".join(ops))
 
 
 def gen_case(rng):
+    _BD.clear()
+    if rng.random() < 0.25: _BD.update(bd_pick(rng))
     r = rng.random()
     if r < 0.2:
         c = gen_mctsv(rng)
@@ -116,7 +150,7 @@ def gen_case(rng):
     elif r < 0.4:
         return gen_rpomcp(rng)
     head, S, A, O = gen_model(rng)
-    iters = rng.choice([0, 1, 2, 3, 5, 8, 12, 20, 30, 40])
+    iters = bd_iters(rng, rng.choice([0, 1, 2, 3, 5, 8, 12, 20, 30, 40]))
     expl = rng.choice(["0", "1/2", "1", "5", "100"])
     nadv = rng.choice([0, 1, 1, 2, 3])
     h = gen_horizon(rng)
@@ -130,7 +164,7 @@ def gen_case(rng):
                 ops.append("A %d %d %d" % (rng.randrange(A), rng.randrange(S), h))
         return "mcts %s %d %s %d %s" % (head, iters, expl, len(ops), " ".join(ops))
     else:
-        bsize = rng.choice([1, 2, 3, 5, 8])
+        bsize = bd_bsize(rng, rng.choice([1, 2, 3, 5, 8]))
 
         def belief():
             w = [rng.choice([0, 1, 1, 2, 3]) for _ in range(S)]
@@ -146,7 +180,7 @@ def gen_case(rng):
             if rng.random() < 0.12:
                 ops.append("F %s %d" % (belief(), h))
             else:
-                ops.append("A %d %d %d" % (rng.randrange(A), rng.randrange(O), h))
+                ops.append("A %d %d %d" % (rng.randrange(A), bd_obs(rng, O), h))
         return "pomcp %s %d %d %s %d %s" % (head, bsize, iters, expl, len(ops), " ".join(ops))
 
 
